@@ -84,6 +84,25 @@ import loguru._file_sink as lfs
 logger.remove()
 die = spec["die"]
 CUR = [0]
+import threading
+GATE = threading.Event()       # gated sinks block until it is set (a backlog that takes long to write)
+if not spec.get("gate"):
+    GATE.set()
+else:
+    # safety net: a program whose calls fill the queue's pipe would block in put() before reaching its end
+    _wd = threading.Timer(5.0, GATE.set)
+    _wd.daemon = True
+    _wd.start()
+if spec.get("fast_timeouts"):
+    # time compression: a BOUNDED wait for the worker thread returns after 50 ms instead of its bound - what
+    # happens for real whenever the backlog outlasts the bound; an unbounded join() is untouched
+    import loguru._handler as lh
+    class ShimThread(lh.Thread):
+        def join(self, timeout=None):
+            if timeout is None:
+                return super().join()
+            return super().join(min(timeout, 0.05))
+    lh.Thread = ShimThread
 
 def dyn_nl(record):
     return "{message}\n{exception}"
@@ -97,19 +116,45 @@ FORMATS = {"static": "{message}", "dyn_nl": dyn_nl, "dyn_nonl": dyn_nonl, "dyn_e
 class Stream:
     encoding = "utf8"   # same exception-formatting symbols as the capture sink
     def __init__(self, name, path, buffering, slow, stoppable, flushable):
-        self.name, self.slow = name, slow
+        self.name, self.slow, self.gated = name, slow, False
         self.f = open(path, "a", buffering=buffering, encoding="utf8", newline="")
         if flushable:
             self.flush = self.f.flush
         if stoppable:
             self.stop = self._stop
     def write(self, m):
+        if self.gated:
+            GATE.wait()
         if self.slow:
             time.sleep(self.slow)
         self.f.write(m)
     def _stop(self):
         report("stop " + self.name)
         self.f.close()
+
+class Proxy:
+    """a delegating proxy / tee: implements write() itself, everything else (flush, stop, encoding, …) is
+    forwarded to the wrapped object through __getattr__"""
+    def __init__(self, inner):
+        self.__dict__["_inner"] = inner
+    def write(self, m):
+        self._inner.write(m)
+    def __getattr__(self, name):
+        return getattr(self._inner, name)
+
+class PropProxy:
+    """implements the optional parts of the protocol as properties returning the wrapped object's methods"""
+    encoding = "utf8"
+    def __init__(self, inner):
+        self._inner = inner
+    def write(self, m):
+        self._inner.write(m)
+    @property
+    def flush(self):
+        return self._inner.flush
+    @property
+    def stop(self):
+        return self._inner.stop
 
 class MemBuf:
     """a user stream that keeps everything in memory until flush() and reports line_buffering"""
@@ -127,10 +172,20 @@ class MemBuf:
             data = data[os.write(self.fd, data):]
 
 def make_stream(s):
+    st = make_stream0(s)
+    if s.get("gated"):
+        st.gated = True
+    if s.get("proxy") == "getattr" or s.get("impl") == "proxy":
+        st = Proxy(st)
+    elif s.get("proxy") == "property" or s.get("impl") == "propproxy":
+        st = PropProxy(st)
+    return st
+
+def make_stream0(s):
     """the stream object handed to logger.add(): the file objects are passed AS THEY ARE"""
     import io
     impl, path = s.get("impl", "wrapper"), s["path"]
-    if impl == "block":
+    if impl in ("block", "proxy", "propproxy"):
         return open(path, "a", encoding="utf8", newline="")
     if impl == "line":
         return open(path, "a", buffering=1, encoding="utf8", newline="")
@@ -156,8 +211,10 @@ def capture(name):
         report("text %s %d %s" % (name, m.record["extra"]["i"], enc(str(m))))
     return sink
 
-def rotation_fn(slow):
+def rotation_fn(slow, gated=False):
     def rot(message, file):
+        if gated:
+            GATE.wait()
         if slow:
             time.sleep(slow)
         return bool(message.record["extra"]["rot"])
@@ -187,7 +244,7 @@ for s in spec["sinks"]:
     if s["kind"] == "file":
         kw = {}
         if s.get("rotation"):
-            kw["rotation"] = rotation_fn(s.get("slow", 0))
+            kw["rotation"] = rotation_fn(s.get("slow", 0), bool(s.get("gated")))
         if s.get("compression") == "die":
             kw["compression"] = compress_die
         elif s.get("compression"):
@@ -247,6 +304,10 @@ def main():
         after(i)
         maybe_fork(i)
     report("end")
+    if spec.get("gate"):
+        t = threading.Timer(spec["gate"], GATE.set)    # the backlog gets written only from now + gate seconds
+        t.daemon = True
+        t.start()
     if die["mode"] == "sys_exit":
         sys.exit(3)
     if die["mode"] == "unhandled":
@@ -519,6 +580,8 @@ STREAM_IMPLS = {
     "linewrap": (1, 1, 0),   # TextIOWrapper(buffered binary, line_buffering=True)
     "stderr": (1, 1, 0),     # the process's own sys.stderr (redirected to a file by the parent)
     "membuf": (1, 1, 0),     # a user class buffering in memory until flush()
+    "proxy": (1, 0, 0),      # write() + __getattr__ forwarding everything else to a block-buffered file
+    "propproxy": (1, 0, 0),  # write() + flush / stop as properties returning the file's methods
     "reconf": (1, 1, 0),     # open(path, "a", buffering=1), then reconfigure(line_buffering=False) after add()
 }
 
@@ -656,6 +719,17 @@ def gen_cases(ctx):
     add("crash", [{"sinks": [stream_sink(flushable=False, buffering=-1)], "messages": small,
                    "die": {"mode": "os_exit", "k": 3}}], io_only=True)
 
+    # B3: a backlog that takes long to write at exit (gated sinks: nothing is written before the program has reached
+    #     its end; bounded waits are time-compressed, see the child): stop() may not return before the queue is drained
+    for rep in range(ctx.n(1, 3) * boost):
+        for mode in ctx.n([rng.choice(["return", "sys_exit", "unhandled"])], ["return", "sys_exit", "unhandled"]):
+            # few, short messages: the whole backlog must fit into the queue's pipe while the sinks are gated
+            msgs = [m for m in gen_exit_messages(rng, 8, rotation=True) if len(m["text"]) < 200 and not m.get("exc")][:6]
+            st = {"sinks": [file_sink(enqueue=True, rotation=True, gated=True),
+                            stream_sink(enqueue=True, stoppable=True, gated=True,
+                                        proxy=rng.choice([None, "getattr", "property"]))],
+                  "messages": msgs, "die": {"mode": mode}, "gate": 0.4, "fast_timeouts": True}
+            add("exit", [st])
     # B: normal interpreter exit
     nexit = 0
     for mode in ("return", "sys_exit", "unhandled"):
@@ -664,7 +738,8 @@ def gen_cases(ctx):
                 msgs = gen_exit_messages(rng, K)
                 fmt = "dyn_edge" if nexit % 3 == 2 else "static"
                 st = {"sinks": [file_sink(enqueue=enq, compression="gz", format=fmt),
-                                stream_sink(enqueue=enq, stoppable=True, slow=0.03 if enq else 0, format=fmt)],
+                                stream_sink(enqueue=enq, stoppable=True, slow=0.03 if enq else 0, format=fmt,
+                                            proxy=[None, "getattr", "property"][(nexit + (1 if enq else 0)) % 3])],
                       "messages": msgs, "die": {"mode": mode}}
                 st.update(ENVIRONMENTS[nexit % 3])
                 nexit += 1
@@ -840,7 +915,9 @@ def judge(ctx, case, res, lines_out):
                 # how the underlying file really buffers (only matters when no flush happens)
                 real_lb = 1 if (sink.get("impl") in ("line", "linewrap", "stderr")
                                 or (sink.get("impl", "wrapper") == "wrapper" and sink.get("buffering", -1) == 1)) else 0
-                line = "stream %d %d %d %d %d %s" % (hf, lba, wt, real_lb, kk, " ".join(toks[:kk]))
+                # is flush found by a STATIC lookup (class or instance dict, no __getattr__, not a property)?
+                static = 0 if (sink.get("impl") in ("proxy", "propproxy") or sink.get("proxy")) else hf
+                line = "stream %d %d %d %d %d %d %s" % (hf, static, lba, wt, real_lb, kk, " ".join(toks[:kk]))
                 lines_out.append((line.rstrip(), ("os", decode(files.get(sink["path"], b""))), case, name))
         return viol
 
@@ -1025,7 +1102,9 @@ def run(ctx):
                                    ",".join("%s=%s" % kv for kv in sorted(st.get("env", {}).items())) or "default"))
                 for s in st["sinks"]:
                     if s["kind"] == "stream":
-                        ctx.stat("stream_impl:" + s.get("impl", "wrapper"))
+                        ctx.stat("stream_impl:" + s.get("impl", "wrapper") + ("+proxy-" + s["proxy"] if s.get("proxy") else ""))
+                    if s.get("gated"):
+                        ctx.stat("gated_sink")
                     ctx.stat("sink:%s%s%s%s" % (s["kind"], "+enqueue" if s.get("enqueue") else "",
                                                 "+rotation" if s.get("rotation") else "",
                                                 "+compression" if s.get("compression") else ""))
